@@ -525,8 +525,65 @@ def rule_json_order(ck, rid="C09.R7"):
     ck.floor(rid, n, 4, "json dump / load call sites in BaseSimObj.to_json / from_json")
 
 
+REORDERING = ("sorted", "reversed", "set", "frozenset", "unique", "shuffle", "sample", "permutation")
+
+
+def _reordering_in(itx):
+    """name of a call / slice in the iteration expression that changes the order or the multiset of what is walked, else None"""
+    for x in ast.walk(itx):
+        if isinstance(x, ast.Call) and call_name(x) in REORDERING:
+            return call_name(x)
+        if isinstance(x, ast.Subscript) and isinstance(x.slice, ast.Slice):
+            return "slice"
+    return None
+
+
+def rule_station_order_roundtrip(ck, rid="C09.R9"):
+    """the station order of a network is the insertion order of its EVSE mapping; voltages, phase angles, constraint columns and the
+    cached per-station limits are positional in that order.  The dump must therefore write, and the restore rebuild, the mapping (and
+    the per-station list of allowable rates) by walking the original in its own order - a dump that walks it sorted / reversed /
+    through a set gives a loaded network whose station list is permuted against its own arrays."""
+    repo = ck.repo
+    net = repo.cls("ChargingNetwork")
+    n = 0
+    for mname, pick, srcs in (("_to_dict", lambda t: t in ("attribute_dict['_EVSEs']", "attribute_dict['allowable_rates']"),
+                               ("self._EVSEs", "self.allowable_rates")),
+                              ("_from_dict", lambda t: t in ("out_obj._EVSEs", "out_obj.allowable_rates"),
+                               ("attribute_dict['_EVSEs']", "attribute_dict['allowable_rates']", "allowable_rates_list"))):
+        f = repo.method(net, mname)
+        fl = flow_of(f)
+        for node in fl.cfg.nodes:
+            if node.kind != "stmt" or not isinstance(node.stmt, ast.Assign):
+                continue
+            t = " ".join(ast.unparse(node.stmt.targets[0]).replace('"', "'").split())
+            if not pick(t):
+                continue
+            e = fl.expand(node.stmt.value, node)
+            comps = [x for x in ast.walk(e) if isinstance(x, (ast.ListComp, ast.DictComp, ast.GeneratorExp))]
+            if not comps:
+                if mname == "_from_dict" and src(e).replace('"', "'") in srcs:
+                    continue                                # the loaded list itself
+                raise AnalysisError(f"ChargingNetwork.{mname}: construction of `{t}` not recognised: {src(e, 100)}")
+            for c in comps:
+                for g in c.generators:
+                    n += 1
+                    how = _reordering_in(g.iter)
+                    walks = any(s in src(g.iter).replace('"', "'") for s in srcs)
+                    if how is None and not walks:
+                        continue
+                    ck.require(how is None, rid, f, g.iter, ok=f"`{t}` is built by walking the original in its own order",
+                               bad=f"`{t}` is built by walking the stations through `{how}`: the loaded network lists its stations in another "
+                                   "order than the one its voltages, phase angles, constraint columns and cached limits are laid out in",
+                               sink=f"{mname}:{t}:order")
+                    ck.require(not g.ifs, rid, f, g.iter, ok="no station is filtered out of the dump / restore",
+                               bad=f"`{t}` leaves out stations ({src(g.ifs[0], 60) if g.ifs else ''}): the positional arrays keep their columns",
+                               sink=f"{mname}:{t}:filter")
+    ck.floor(rid, n, 3, "station-ordered containers written by ChargingNetwork._to_dict / rebuilt by _from_dict")
+
+
 def run(ck):
     ck.attempt(rule_json_order)
+    ck.attempt(rule_station_order_roundtrip)
     ck.attempt(rule_registry_binding)
     ck.attempt(rule_constructors)
     ck.attempt(rule_agreement)
